@@ -92,6 +92,9 @@ class _array(array.array):
     def __reduce__(self):
         return (self.__class__, (list(self),), self.__dict__)
 
+    def __reduce_ex__(self, protocol):
+        return self.__reduce__()
+
 
 class_replacers[array.array] = _array
 
